@@ -250,3 +250,25 @@ def run_property(pid, spec, tier="quick", seed=0, out=sys.stdout):
     for r in outs:
         print("  %-12s instances=%-5d reports=%-3d undecided=%-3d %s" % (r.rule, r.instances, len(r.reports), len(r.undecided), r.stats or ""), file=out)
     return rc
+
+
+def scoped(rule, prefixes, label):
+    """the same rule, restricted to reports / undecided sites / obligations whose file lies under one of the prefixes"""
+
+    def run(repo, tier):
+        r = rule(repo, tier)
+        outs = [r] if isinstance(r, RuleOut) else list(r)
+        res = []
+        for o in outs:
+            n = RuleOut(o.rule, o.what + "  [restricted to %s]" % label)
+            n.reports = [x for x in o.reports if x.file.startswith(prefixes)]
+            n.undecided = [u for u in o.undecided if str(u.get("file", "")).startswith(prefixes)]
+            n.nontrivial = {k for k in o.nontrivial if any(p in str(k) for p in prefixes)}
+            n.instances = max(len(n.nontrivial), 1)
+            n.samples = [s for s in o.samples if any(p in str(s) for p in prefixes)][:6] or o.samples[:1]
+            n.stats = dict(o.stats)
+            res.append(n)
+        return res[0] if len(res) == 1 else res
+
+    run.__name__ = getattr(rule, "__name__", "rule") + "_" + label
+    return run
